@@ -106,7 +106,10 @@ func engineCaseInv(ctx *Ctx) {
 				q = vlib.GenQuery(r, words, 1+r.Intn(2), 2) // typo: fuzzy fallback decides
 			case 3: // NLP clue phrases and intent words
 				q = []string{"see the contents of a file without opening it", "show file contents without editing", "find large files", "create new directory",
-					"install package", "compress archive folder", "view running processes", "search text in files", "change permissions of file", "download url"}[r.Intn(10)]
+					"install package", "compress archive folder", "view running processes", "search text in files", "change permissions of file", "download url",
+					// context clues that are only substrings of longer words (the clue detector works on the raw text)
+					"preview file contents without opening", "reading logs without editing them", "looking inside archive without opening it",
+					"showing text file without opening editor", "displayed contents without editing", "overview of file without opening"}[r.Intn(16)]
 				if r.Intn(2) == 0 {
 					q += " " + vlib.Word(r, words)
 				}
@@ -197,7 +200,7 @@ func engineCaseInv(ctx *Ctx) {
 // or in leading / trailing / repeated blanks print the same result block.
 func engineCaseInvCLI(ctx *Ctx) {
 	r := vlib.NewRand(ctx.Seed, ctx.Shard, "caseinv-cli")
-	nDB := ctx.N(32, 320)
+	nDB := ctx.N(64, 640)
 	for d := 0; d < nDB; d++ {
 		sp := vlib.DBSpec{N: []int{10, 30, 80}[d%3], MixedCase: true, Platforms: d % 2}
 		cmds := vlib.GenCommands(r, sp)
@@ -221,17 +224,32 @@ func engineCaseInvCLI(ctx *Ctx) {
 		vlib.WriteYAML(dbp, cmds)
 		words := vlib.DBWords(cmds)
 		for qi := 0; qi < ctx.Pick(6, 8); qi++ {
-			q := vlib.GenQuery(r, words, 1+r.Intn(4), []int{0, 0, 2}[r.Intn(3)])
+			qkind := []int{0, 2, 2}[r.Intn(3)]
+			q := vlib.GenQuery(r, words, 1+r.Intn(3), qkind)
 			if strings.TrimSpace(q) == "" {
 				continue
+			}
+			if qkind == 2 {
+				ctx.R.Path("cli-typo-queries", 1)
 			}
 			q2 := c20Respell(r, q, r.Intn(5))
 			kind := "case"
 			if r.Intn(2) == 0 { // whitespace padding
 				kind = "case+blanks"
-				q2 = strings.Repeat(" ", r.Intn(3)) + strings.ReplaceAll(q2, " ", strings.Repeat(" ", 1+r.Intn(3))) + strings.Repeat(" ", r.Intn(3))
-				if r.Intn(3) == 0 {
-					q2 = "\t" + q2 + "\n"
+				switch r.Intn(6) {
+				case 0: // exactly one leading blank, nothing else
+					q2 = " " + q2
+				case 1: // exactly one trailing blank
+					q2 = q2 + " "
+				case 2:
+					q2 = " " + q2 + " "
+				case 3: // blanks only, case untouched
+					q2 = " " + q
+				default:
+					q2 = strings.Repeat(" ", r.Intn(3)) + strings.ReplaceAll(q2, " ", strings.Repeat(" ", 1+r.Intn(3))) + strings.Repeat(" ", r.Intn(3))
+					if r.Intn(3) == 0 {
+						q2 = "\t" + q2 + "\n"
+					}
 				}
 			}
 			if q2 == q {
